@@ -64,6 +64,10 @@ func runCase(c *core.Ctx, i int) {
 		concurrentCase(c, rng)
 		return
 	}
+	if i%19 == 3 {
+		skewCase(c, rng)
+		return
+	}
 	switch x := rng.Intn(100); {
 	case x < 58:
 		layoutCase(c, rng, false)
@@ -385,6 +389,9 @@ func runLayout(c *core.Ctx, w *World, q *QueryDef, l *Layout, emit bool, ctxBase
 				panic("leaf sent no response to a receiver")
 			}
 		}
+		if rs[0].ErrMsg == "" && len(recvNames) > 1 {
+			checkPartition(c, w, q, leaf, rs)
+		}
 		if rs[0].ErrMsg == "" && emit {
 			// leaf reduce + BuildResultSet against the model
 			first := &protoCommonV1.TimeSeriesList{}
@@ -687,7 +694,7 @@ func genLayout(rng *rand.Rand, w *World, q *QueryDef, localSchemas bool) *Layout
 		}
 	}
 	if len(q.GroupBy) > 0 && rng.Intn(2) == 0 {
-		l.Receivers = 1 + rng.Intn(3)
+		l.Receivers = 1 + rng.Intn(5)
 	}
 	n := l.Receivers
 	if n == 0 {
@@ -910,13 +917,17 @@ func protocolCase(c *core.Ctx, rng *rand.Rand) {
 	}
 }
 
-// routeCase: real rows through the real BrokerBatchRows shard iterator for shard counts 1..k.
+// routeCase: real rows through the real BrokerBatchRows shard iterator for shard counts 1..k. The
+// rows of a batch belong to 1-3 data families (hours) and are NOT time-ordered; every row must
+// come out exactly once, in the group of its shard, under the family that contains its timestamp.
 func routeCase(c *core.Ctx, rng *rand.Rand) {
-	n := 1 + rng.Intn(12)
+	n := 1 + rng.Intn(20)
+	nFam := 1 + rng.Intn(3)
 	type rowT struct {
 		id   int
 		hash uint64
 	}
+	const hour = int64(3600000)
 	batch := metric.NewBrokerBatchRows()
 	defer batch.Release()
 	var rows []rowT
@@ -928,7 +939,8 @@ func routeCase(c *core.Ctx, rng *rand.Rand) {
 			_ = rb.AddTag([]byte("dc"), []byte(fmt.Sprintf("d%d", rng.Intn(2))))
 		}
 		_ = rb.AddSimpleField([]byte("f"), flatMetricsV1.SimpleFieldTypeDeltaSum, 1)
-		rb.AddTimestamp(familyStart + int64(id)) // the timestamp identifies the row
+		// family (hour) drawn per row; the offset inside the hour identifies the row
+		rb.AddTimestamp(familyStart + int64(rng.Intn(nFam))*hour + int64(id)*1000 + int64(rng.Intn(1000)))
 		blk, err := rb.Build()
 		if err != nil {
 			panic(err)
@@ -943,6 +955,7 @@ func routeCase(c *core.Ctx, rng *rand.Rand) {
 		m := r.Metric()
 		rows = append(rows, rowT{id: id, hash: m.KvsHash()})
 	}
+	idOf := func(ts int64) int { return int(((ts - familyStart) % hour) / 1000) }
 	kmax := 1 + rng.Intn(6)
 	for k := 1; k <= kmax; k++ {
 		toks := []string{"route", fmt.Sprint(k)}
@@ -965,10 +978,15 @@ func routeCase(c *core.Ctx, rng *rand.Rand) {
 			shard, fam := it.FamilyRowsForNextShard(timeutil.Interval(intervalMs))
 			var ids []int
 			for fam.HasNextFamily() {
-				_, frows := fam.NextFamily()
+				familyTime, frows := fam.NextFamily()
 				for i := range frows {
 					m := frows[i].Metric()
-					ids = append(ids, int(m.Timestamp()-familyStart))
+					ts := m.Timestamp()
+					ids = append(ids, idOf(ts))
+					if ts-ts%hour != familyTime {
+						c.Fail("row-filed-under-wrong-family", fmt.Sprintf("%d shards, shard %d: row %d with timestamp family+%dh is handed out under family +%dh (batch of %d rows over %d families, not time-ordered)",
+							k, shard, idOf(ts), (ts-ts%hour-familyStart)/hour, (familyTime-familyStart)/hour, n, nFam))
+					}
 					if prev, ok := byHash[m.KvsHash()]; ok && prev != shard {
 						c.Fail("same-series-two-shards", fmt.Sprintf("hash %d in shards %d and %d of %d", m.KvsHash(), prev, shard, k))
 					}
@@ -976,16 +994,21 @@ func routeCase(c *core.Ctx, rng *rand.Rand) {
 				}
 			}
 			sort.Ints(ids)
+			for i := 1; i < len(ids); i++ {
+				if ids[i] == ids[i-1] {
+					c.Fail("routing-loses-or-duplicates-rows", fmt.Sprintf("row %d twice in shard %d of %d", ids[i], shard, k))
+				}
+			}
 			total += len(ids)
 			if shard <= last || shard >= k || shard < 0 {
 				c.Fail("shard-groups-not-ascending-in-range", fmt.Sprintf("shard %d after %d of %d", shard, last, k))
 			}
 			last = shard
-			var s []string
+			var ss []string
 			for _, id := range ids {
-				s = append(s, fmt.Sprint(id))
+				ss = append(ss, fmt.Sprint(id))
 			}
-			groups = append(groups, fmt.Sprintf("%d:%s", shard, strings.Join(s, ",")))
+			groups = append(groups, fmt.Sprintf("%d:%s", shard, strings.Join(ss, ",")))
 		}
 		if total != n {
 			c.Fail("routing-loses-or-duplicates-rows", fmt.Sprintf("%d rows in, %d out for %d shards", n, total, k))
@@ -993,6 +1016,7 @@ func routeCase(c *core.Ctx, rng *rand.Rand) {
 		c.Op(strings.Join(toks, " "), strings.Join(groups, " "))
 		c.Branch(fmt.Sprintf("route-shards=%d", k))
 	}
+	c.Branch(fmt.Sprintf("route-families=%d", nFam))
 	c.NonTrivial()
 }
 
@@ -1050,4 +1074,125 @@ func layoutCaseL2(c *core.Ctx, rng *rand.Rand) {
 		c.Fail("level1-leaf-differs-from-storage-leaf", fmt.Sprintf("layout {%s}: level 1 %q (%s), level 2 %q (%s)", describeLayout(l),
 			l1.full.answerLine(), l1.res.Err, got.full.answerLine(), got.res.Err))
 	}
+}
+
+// groupTags decodes the group tags of a payload.
+func groupTags(r *protoCommonV1.TaskResponse) []string {
+	l := &protoCommonV1.TimeSeriesList{}
+	if err := l.Unmarshal(r.Payload); err != nil {
+		return nil
+	}
+	var out []string
+	for _, ts := range l.TimeSeriesList {
+		out = append(out, ts.Tags)
+	}
+	return out
+}
+
+// checkPartition is the direct oracle on what a real leaf sends to n > 1 receivers: the groups of
+// the per-receiver payloads together are the leaf's groups (what the same leaf sends to a single
+// receiver), each exactly once, each to receiver xxhash(group tags) mod n.
+func checkPartition(c *core.Ctx, w *World, q *QueryDef, leaf *LeafDef, rs []*protoCommonV1.TaskResponse) {
+	one, err := RunLeaf(w, q, leaf, []string{"root"})
+	if err != nil || one[0].ErrMsg != "" {
+		return
+	}
+	want := map[string]bool{}
+	for _, t := range groupTags(one[0]) {
+		want[t] = true
+	}
+	n := len(rs)
+	seen := map[string]int{}
+	for j, r := range rs {
+		for _, t := range groupTags(r) {
+			seen[t]++
+			if int(xxhash.Sum64String(t)%uint64(n)) != j {
+				c.Fail("series-sent-to-wrong-receiver", fmt.Sprintf("leaf %s, %d receivers: group %q is in the payload of receiver %d, its hash names receiver %d",
+					leaf.Name, n, t, j, xxhash.Sum64String(t)%uint64(n)))
+			}
+			if !want[t] {
+				c.Fail("series-sent-but-not-reduced", fmt.Sprintf("leaf %s, %d receivers: group %q is sent but is not a group of the leaf", leaf.Name, n, t))
+			}
+		}
+	}
+	var dist []int
+	for j := range rs {
+		dist = append(dist, len(groupTags(rs[j])))
+	}
+	for t := range want {
+		if seen[t] == 0 {
+			c.Fail("series-not-sent", fmt.Sprintf("leaf %s, %d receivers (groups per receiver %v of %d): group %q of the leaf is in no receiver's payload", leaf.Name, n, dist, len(want), t))
+			return
+		}
+		if seen[t] > 1 {
+			c.Fail("series-sent-twice", fmt.Sprintf("leaf %s, %d receivers (groups per receiver %v of %d): group %q is sent %d times", leaf.Name, n, dist, len(want), t, seen[t]))
+			return
+		}
+	}
+}
+
+// skewCase: 8-40 groups whose tag values are CHOSEN so that one receiver (of 2-5) gets most of
+// them and the next one a few (the receiver of a group is xxhash(tags) mod n: deterministic, so
+// the generator searches host names by their hash); group by host, 1-3 leaves; the layout goes
+// through the real code and the model, with the partition oracle on every leaf and the usual
+// oracle against the reference layout.
+func skewCase(c *core.Ctx, rng *rand.Rand) {
+	n := 2 + rng.Intn(4)
+	heavy := rng.Intn(n)
+	total := 8 + rng.Intn(33)
+	nextCnt := 1 + rng.Intn(2)
+	w := &World{TagKeys: []string{"host"}, Fields: []FieldDef{{Name: "f1", Type: field.SumField}}}
+	perRecv := make([]int, n)
+	for cand := 0; len(w.Series) < total && cand < 100000; cand++ {
+		name := fmt.Sprintf("s%d", cand)
+		j := int(xxhash.Sum64String(name) % uint64(n))
+		switch {
+		case j == heavy:
+		case j == (heavy+1)%n && perRecv[j] < nextCnt:
+		case rng.Intn(12) == 0 && perRecv[j] < 2:
+		default:
+			continue
+		}
+		perRecv[j]++
+		w.Series = append(w.Series, SeriesDef{Tags: []string{name}, Hash: seriesHash(w.TagKeys, []string{name})})
+	}
+	nSlots := 2 + rng.Intn(3)
+	for si := range w.Series {
+		for k := 0; k < 1+rng.Intn(2); k++ {
+			w.Points = append(w.Points, Point{Series: si, Field: 0, Slot: rng.Intn(nSlots), Val: int64(1 + rng.Intn(30))})
+		}
+	}
+	q := &QueryDef{Selects: []SelectDef{{"f1", function.Unknown}}, GroupBy: []int{0}, NumSlots: nSlots, Limit: 1000, ftypes: ftypesOf(w)}
+	m := 1 + rng.Intn(3)
+	l := &Layout{Receivers: n}
+	for li := 0; li < m; li++ {
+		l.Leaves = append(l.Leaves, &LeafDef{Name: fmt.Sprintf("leaf%d", li), KnownFields: []int{0}, Shards: [][]int{nil}})
+	}
+	for si := range w.Series {
+		li := 0
+		if rng.Intn(4) == 0 { // most groups on the first leaf, so that its heavy receiver overflows a fair share
+			li = rng.Intn(m)
+		}
+		l.Leaves[li].Shards[0] = append(l.Leaves[li].Shards[0], si)
+	}
+	for j := 0; j < n; j++ {
+		l.LeafPerm = append(l.LeafPerm, perm(rng, m))
+	}
+	l.RootPerm = perm(rng, n)
+	ref := runLayout(c, w, q, reference(w), true, 0)
+	got := runLayout(c, w, q, l, true, 10)
+	c.Branch("skew")
+	c.Branch(fmt.Sprintf("skew-receivers=%d", n))
+	c.NonTrivial()
+	if got.res.Err != ref.res.Err || got.res.answerLine() != ref.res.answerLine() {
+		c.Fail("layout-changes-answer", fmt.Sprintf("%d groups, %d receivers (groups per receiver %v), %d leaves: single shard %q (%s) / layout %q (%s)",
+			len(w.Series), n, perRecv, m, clip(ref.res.answerLine()), ref.res.Err, clip(got.res.answerLine()), got.res.Err))
+	}
+}
+
+func clip(s string) string {
+	if len(s) > 300 {
+		return s[:300] + "..."
+	}
+	return s
 }
